@@ -30,7 +30,8 @@ def translate(ctx):
     if text is not None:
         info['changed'] = C.write_if_changed(path, text)
     else:
-        info['note'] = 'source shape not recognised; the previous Generated/SdssIds.v is kept and the correspondence run alone ties model to code'
+        info['restored_committed_file'] = C.restore_generated('coq/Generated/SdssIds.v')
+        info['note'] = 'source shape not recognised; the committed Generated/SdssIds.v is kept and the correspondence run alone ties model to code'
     return {'SdssIds': info}
 
 
